@@ -9,6 +9,7 @@ mod c09;
 mod c11;
 mod c14;
 mod c16;
+mod c18;
 
 use vrt::Tier;
 
@@ -52,6 +53,7 @@ fn main() {
         "C05" => c05::main(&args),
         "C11" => c11::main(&args),
         "C16" => c16::main(&args),
+        "C18" => c18::main(&args),
         "C14" => c14::main(&args),
         "setup" => {
             // generate and build every quick-tier corpus so that the first quick check is fast
@@ -60,6 +62,7 @@ fn main() {
                 pkgs.extend(corpus::generate(&spec));
             }
             pkgs.extend(c16::generate_body(Tier::Quick));
+            pkgs.extend(c18::generate_shape(Tier::Quick));
             if let Err(e) = corpus::build(&pkgs) {
                 eprintln!("setup: corpus build failed:\n{e}");
                 std::process::exit(2);
